@@ -80,6 +80,10 @@ type PageGen struct {
 	MarkMode int
 	// DupAttrs: now and then an attribute is written twice on one element (the parser keeps both)
 	DupAttrs bool
+	// RepeatMedia: a media URL is now and then one the page has used before (the same picture as
+	// mast and in the body, the same poster twice)
+	RepeatMedia bool
+	mediaSeen   []string
 	// BaseHref: a <base href> element in the head (the library resolves content URLs against the
 	// page URL the caller supplied, whatever the document says)
 	BaseHref string
@@ -107,6 +111,17 @@ func (g *PageGen) words(n int) string {
 	return strings.Join(ws, " ")
 }
 func (g *PageGen) mediaURL(ext string) string {
+	if g.RepeatMedia && len(g.mediaSeen) > 0 && g.R.Chance(35) {
+		return g.mediaSeen[g.R.Intn(len(g.mediaSeen))]
+	}
+	u := g.freshMediaURL(ext)
+	if g.RepeatMedia {
+		g.mediaSeen = append(g.mediaSeen, u)
+	}
+	return u
+}
+
+func (g *PageGen) freshMediaURL(ext string) string {
 	g.media++
 	base := fmt.Sprintf("m%d.%s", g.media, ext)
 	if !g.RelURLs {
